@@ -22,6 +22,18 @@ P.update({
  'C17': dict(level='other', ref='DESIGN.md section 3 C17',
    text='For all 7 strategies: complete drain of a symbolic cache (3 metrics x 0..3 datapoints) hands out everything exactly once, never an empty batch, max/bucketmax always return a maximal metric; pass fairness for naive/sorted/timesorted over every sequence of <=4 (quick) / 5 (thorough) drain/store operations; MIN_TIMESTAMP_LAG with unbounded symbolic clock and lag. Path trees exhausted within those bounds.'),
 })
+P.update({
+ 'C01': dict(level='other', ref='DESIGN.md section 3 C01',
+   text='Decomposed: framing (inductive step of the real LineOnlyReceiver/Int32StringReceiver from an arbitrary buffer, plus every delimiter mask x every pair of cut positions incl. inside a UTF-8 character and inside the 4-byte prefix), parsing (symbolic metric names over all non-whitespace code points; number spellings, whitespace, terminators and batching from boundary tables with symbolic indices) and pickle entry unpacking, each decided by CrossHair+z3 with exhausted path trees within the stated bounds.'),
+ 'C11': dict(level='other', ref='DESIGN.md section 3 C11',
+   text='No exception escapes and neighbours are delivered exactly as if the malformed item were absent: symbolic raw bytes (<=4) into lineReceived, symbolic ASCII bytes into datagramReceived, tables of malformed fields / undecodable lines / wrong-shaped pickle payloads / exception classes of the unpickler with symbolic indices and positions, each between two well-formed items (differential oracle). Path trees exhausted within the bounds.'),
+ 'C12': dict(level='other', ref='DESIGN.md section 3 C12',
+   text='metricReceived decided for every combination of symbolic blacklist/whitelist emptiness and match bits, value table incl. NaN/inf, any non-negative symbolic int timestamp (written q*res+r), -1 with a symbolic clock, fractional timestamps, resolutions {0,1,10,60,7,3600}, on all three listeners: delivered iff admissible, counters exact, name/value untouched, timestamp floored. RegexList.read_list on generated files and __contains__ on symbolic names.'),
+ 'C20': dict(level='proof', ref='DESIGN.md section 3 C20',
+   text='SMT proof of an inductive lemma set over the z3 translation of the CURRENT TokenBucket source (validated against the real class on seeded runs each time): invariant preservation, credit potential phi decreases by cost per grant and grows at most r*dt, phi in [0,2C] after grants, blocking wait <= deficit/rate, limit change leaves tokens <= new burst; all for UNBOUNDED real capacity, rate, cost and clock readings, hence histories of any length. Plus a bounded k-call direct statement (with and without a limit change).',
+   technique='AST->SMT translation of the real source; inductive lemmas discharged by z3 (QF_NRA), translation validated against the real class',
+   note='Trusted: the AST->z3 translator (checked on every run against the real class on seeded concrete inputs), z3 5.1.0, floats modelled as reals (IEEE rounding outside the claim), the clock contract (non-decreasing readings; sleep(d) advances >= d), and the short telescoping argument that turns the lemmas into the window bound (stated in evidence.assumptions).'),
+})
 NA_PENDING = 'harness not implemented yet in this round (see DESIGN.md section 3 for the planned solver-based harness)'
 
 
